@@ -146,6 +146,8 @@ func (cx *Ctx) oracle(name string, rs []JobResult) (violated bool, key, what, fi
 		return cx.oracleArgs(rs)
 	case "c07.real":
 		return cx.oracleReal(rs)
+	case "c07.env":
+		return cx.oracleEnv(rs)
 	case "c01.returns":
 		return cx.oracleReturns(rs)
 	case "c01.afterabort":
@@ -378,6 +380,40 @@ func (cx *Ctx) oracleReturns(rs []JobResult) (bool, string, string, string) {
 			what += " [" + o.Stack + "]"
 		}
 		return true, failKey(o), what, fpOf(o.Verdict, o.Site, o.Detail)
+	}
+	return false, "", "", ""
+}
+
+// c07.env: the same multi job (identity resolution) in fresh worker processes that differ only in their simulated
+// machine / environment at package-initialisation time; the outcomes must be identical.
+func (cx *Ctx) oracleEnv(rs []JobResult) (bool, string, string, string) {
+	var base *spec.Outcome
+	for i, r := range rs {
+		if r.Res == nil || r.Res.Error != "" || len(r.Res.Outcomes) == 0 {
+			continue
+		}
+		o := r.Res.Outcomes[0]
+		if o.Verdict == "HARNESS" {
+			cx.trouble("harness verdict: %s", o.Detail)
+			return false, "", "", ""
+		}
+		if o.Verdict == "BUDGET" {
+			continue
+		}
+		if base == nil {
+			oc := o
+			base = &oc
+			continue
+		}
+		if o.Hash != base.Hash || o.Verdict != base.Verdict {
+			c := r.Job.Calls[0]
+			what := fmt.Sprintf("Layout(%s; %s) %s in a process on the canonical simulated machine but %s in process %d, which differs only in what the machine and the environment answer at package initialisation (CPU count, environment variables, pid, host name)",
+				edgesText(c.Edges), optsText(c.Opts), describe(*base), describe(o), i)
+			if o.Full != "" && base.Full != "" {
+				what += "; " + firstDiff(base.Full, o.Full)
+			}
+			return true, "environment-dependent", what, fpOf(base.Hash, o.Hash)
+		}
 	}
 	return false, "", "", ""
 }
